@@ -104,6 +104,11 @@ int64_t heapTotalAllocs();
 // hook invoked at every allocator entry (scheduler yields here); may be null
 extern void (*heapSchedHook)(void);
 
+// reference-copy allocator shim (see heap.cc)
+int64_t refallocBadFrees();
+int64_t refallocLive();
+void refallocSweep();
+
 extern "C" {
 void *h3sim_malloc(size_t size);
 void *h3sim_calloc(size_t num, size_t size);
